@@ -25,7 +25,11 @@ Upper == Rate = 0 \/ \A i \in Anchors : \A j \in DOMAIN Trace :
 Lower == (Rate = 0 \/ ~Backlogged \/ Burst < 2 * MaxPkt) \/ \A i \in Anchors : \A j \in DOMAIN Trace :
    (i <= j) => Scale * ((Trace[j].cum - Trace[i].cum) + Burst + MaxPkt) >= Rate * (Trace[j].e - Trace[i].e)
 Unlimited == Rate # 0 \/ \A i \in DOMAIN Trace : Trace[i].adm
-All == Upper /\ Lower /\ Unlimited
+\* "never starves": a backlogged subscriber whose bucket holds at least one maximum-size packet gets something
+\* admitted in every window in which two maximum-size packets' worth accrues (TokenBucket.tla, NoStarve)
+NoStarve == (Rate = 0 \/ ~Backlogged \/ Burst < MaxPkt) \/ \A i \in Anchors : \A j \in DOMAIN Trace :
+   (i <= j /\ Rate * (Trace[j].e - Trace[i].e) >= Scale * 2 * MaxPkt) => Trace[j].cum > Trace[i].cum
+All == Upper /\ Lower /\ Unlimited /\ NoStarve
 Init == x = 0
 Next == x' = x
 ====
